@@ -14,6 +14,12 @@ sees are what the other parties did in between.  A schedule is a list of party i
 Parties are mdsort runs (`errOf (matchesExec ..)` for one message, `scanExec` for a directory
 listing followed by the action list on every name found) and an external client
 (`clientProg`: `rename` and `unlink` of names in the maildirs, e.g. `name -> name:2,S`).
+
+Read from the history (`Shared.log`): which entry a call removed / bound, the commit of a copy
+(`Event.commits`), the lineage of a file (`originIn`: a committed copy descends from the file it
+superseded), an outright removal of a version of an initial file (`Event.destroysRoot`).
+Isolation hypotheses: `Hiso` (per step: `isoStep`), `HisoExcept` (clients exempt), `HisoOwn` (the
+local clause only), `HisoReaddir` / `HisoReaddirNS` (stated on what `readdir` returns).
 -/
 
 namespace Mdsort.Model
@@ -36,6 +42,10 @@ structure Event where
   srcFid : Option Nat                -- file `src` was bound to when the call was issued
   dstFid : Option Nat                -- file `dst` was bound to when the call was issued
   pending : Bool                     -- the party had created names in flight (see `inFlightH`)
+  flight : List (Bytes × Bytes) := []   -- those names, as entries (directory, name)
+  flightFid : Option Nat := none     -- the file the first of them was bound to
+  srcRoot : Option Nat := none       -- the initial file `srcFid` descends from (see `originIn`)
+  dstRoot : Option Nat := none       -- the initial file `dstFid` descends from
 deriving Repr, DecidableEq
 
 structure Shared where
@@ -67,12 +77,15 @@ def World.lookupE (w : World) (e : Option (Bytes × Bytes)) : Option Nat := e.bi
 def inFlightUpd (acc : List (Handle × Bytes)) : Call × Res → List (Handle × Bytes)
   | (.openExcl d n, .ok _) => acc ++ [(d, n)]
   | (.renameat _ _ d2 n2, .ok _) => acc.filter (· != (d2, n2))
-  | (.unlinkat d n, _) => acc.filter (· != (d, n))
+  | (.unlinkat d n, r) =>
+    if acc.contains (d, n) then acc.filter (· != (d, n))     -- roll-back of the created name
+    else if isOk r then []                                   -- the original is gone: the copy is the message now
+    else acc
   | _ => acc
 
 /-- The names (directory handle, name) a party created with `O_CREAT|O_EXCL` and has neither
-committed (a successful rename of the message onto the name) nor rolled back (`unlinkat` of the
-name) yet. -/
+committed (a successful rename of the message onto the name, or - when the name holds a complete
+copy - a successful `unlinkat` of the original) nor rolled back (`unlinkat` of the name) yet. -/
 def inFlightH (tr : List (Call × Res)) : List (Handle × Bytes) := tr.foldl inFlightUpd []
 
 def handlesDirPath (hs : List Obj) (d : Handle) : Option Bytes :=
@@ -83,6 +96,23 @@ def handlesDirPath (hs : List Obj) (d : Handle) : Option Bytes :=
 /-- The same, as (directory path, name). -/
 def PState.inFlight (p : PState) : List (Bytes × Bytes) :=
   (inFlightH p.trace).filterMap fun x => (handlesDirPath p.handles x.1).map fun q => (q, x.2)
+
+/-! ## lineage: which initial file an entry descends from (read from the global history) -/
+
+/-- The commit of a copy: a successful `unlinkat`, by a party that has a created name in flight, of an
+entry other than that name (`maildir_write`: the original after the new file is complete; `maildir_move`
+across devices: the source after the copy).  From then on the copy IS the message. -/
+def Event.commits (e : Event) : Bool :=
+  match e.call, e.src with
+  | .unlinkat .., some x => isOk e.res && !e.flight.isEmpty && !e.flight.contains x
+  | _, _ => false
+
+/-- One event of the history: a committed copy inherits the origin of the file it supersedes. -/
+def originStep (o : Nat → Nat) (e : Event) : Nat → Nat := fun g =>
+  if e.commits && e.flightFid == some g then e.srcRoot.getD g else o g
+
+/-- `originIn log g`: the file `g` descends from by the copy commits of `log` (itself if it is no copy). -/
+def originIn (log : List Event) : Nat → Nat := log.foldl originStep id
 
 /-! ## steps and schedules -/
 
@@ -98,7 +128,10 @@ def stepEvent (s : Shared) (i : Nat) (p : PState) (c : Call) : Event :=
   let w := s.view p
   { party := i, call := c, res := predict w c, src := callSrc w c, dst := callDst w c,
     srcFid := w.lookupE (callSrc w c), dstFid := w.lookupE (callDst w c),
-    pending := !(inFlightH p.trace).isEmpty }
+    pending := !(inFlightH p.trace).isEmpty,
+    flight := p.inFlight, flightFid := w.lookupE p.inFlight.head?,
+    srcRoot := (w.lookupE (callSrc w c)).map (originIn s.log),
+    dstRoot := (w.lookupE (callDst w c)).map (originIn s.log) }
 
 def stepCall (s : Shared) (i : Nat) (p : PState) (c : Call) (k : Res → Prog Bool) : Shared :=
   { fs := (stepView s p c).shared, parties := s.parties.set i (stepLocal s p c k), log := s.log ++ [stepEvent s i p c] }
@@ -156,6 +189,15 @@ flight (a `discard`, or the client's delete), or replaced by a rename onto it. -
 def Event.destroys (e : Event) (f : Nat) : Bool :=
   isOk e.res && ((!e.call.isRename && !e.pending && e.srcFid == some f) || (e.call.isRename && e.dstFid == some f && e.srcFid != some f))
 
+/-- A version of the initial file `f0` was removed outright: its entry was unlinked by a party that had
+no copy of its own in flight (a `discard`, or the client's delete), or another file was renamed onto it. -/
+def Event.destroysRoot (e : Event) (f0 : Nat) : Bool :=
+  isOk e.res && ((!e.call.isRename && !e.pending && e.srcRoot == some f0) ||
+    (e.call.isRename && e.dstRoot == some f0 && e.srcFid != e.dstFid))
+
+/-- The lineage read from the history of a state. -/
+def Shared.origin (s : Shared) : Nat → Nat := originIn s.log
+
 /-! ## the exactly-once check on a final state (by content, for any kind of party) -/
 
 /-- All directory entries: (directory, name, file id). -/
@@ -178,8 +220,10 @@ def stageEntries (w : World) (c0 : Bytes) : List (Bytes × Bytes × Nat) :=
 def foreignInFlight (s : Shared) (a : Nat) : List (Bytes × Bytes) :=
   (s.parties.zipIdx.filter fun x => x.2 != a).flatMap fun x => x.1.inFlight
 
-/-- Isolation of the next call of party `a`: the entry it removes / binds is not a name another
-party has in flight, and it does not rename (treat as a message) a name it has in flight itself. -/
+/-- Isolation of the next call of party `a`: the entry it removes (`unlinkat`, source of `renameat`)
+and the entry a `renameat` replaces is not a name another party has in flight, and it does not rename
+(treat as a message) a name it has in flight itself.  Nothing is asked of an exclusive create: on a
+name somebody has in flight it fails with `EEXIST`. -/
 def isoStep (s : Shared) (a : Nat) : Bool :=
   match s.parties[a]? with
   | none => true
@@ -188,7 +232,7 @@ def isoStep (s : Shared) (a : Nat) : Bool :=
     | .ret _ => true
     | .call c _ =>
       let w := s.view p
-      let touched := (callSrc w c).toList ++ (callDst w c).toList
+      let touched := (callSrc w c).toList ++ (if c.isRename then (callDst w c).toList else [])
       touched.all (fun x => !(foreignInFlight s a).contains x) &&
         (!c.isRename || (callSrc w c).toList.all fun x => !p.inFlight.contains x)
 
@@ -196,6 +240,12 @@ def isoStep (s : Shared) (a : Nat) : Bool :=
 def Hiso (s : Shared) : List Nat → Bool
   | [] => true
   | a :: rest => isoStep s a && Hiso (stepParty s a) rest
+
+/-- `H_iso` asked only of the steps of the parties outside `cl` (used for the external client, whose
+steps need no isolation hypothesis when it keeps to names no mdsort process generates). -/
+def HisoExcept (cl : List Nat) (s : Shared) : List Nat → Bool
+  | [] => true
+  | a :: rest => (cl.contains a || isoStep s a) && HisoExcept cl (stepParty s a) rest
 
 /-- `H_iso` as the task words it: no `readdir` of a party returns a name another party has in flight. -/
 def isoReaddirStep (s : Shared) (a : Nat) : Bool :=
@@ -214,6 +264,29 @@ def HisoReaddir (s : Shared) : List Nat → Bool
   | [] => true
   | a :: rest => isoReaddirStep s a && HisoReaddir (stepParty s a) rest
 
+/-- The purely local clause of `H_iso`: the next call of party `a` does not rename (treat as a message) a name
+the party has in flight itself. -/
+def ownStep (s : Shared) (a : Nat) : Bool :=
+  match s.parties[a]? with
+  | none => true
+  | some p =>
+    match p.prog with
+    | .ret _ => true
+    | .call c _ => !c.isRename || (callSrc (s.view p) c).toList.all fun x => !p.inFlight.contains x
+
+def HisoOwn (s : Shared) : List Nat → Bool
+  | [] => true
+  | a :: rest => ownStep s a && HisoOwn (stepParty s a) rest
+
+/-- Isolation stated on the results of `readdir` and on name spaces: `N i` is the set of names party `i`
+can generate (`now.pid_count.host...`); no `readdir` of a party returns a name of ANOTHER party's name space. -/
+def HisoReaddirNS (N : Nat → Bytes → Prop) (s : Shared) : List Nat → Prop
+  | [] => True
+  | a :: rest =>
+    (∀ (ps : PState) (d : Handle) (k : Res → Prog Bool) (n : Bytes), s.parties[a]? = some ps → ps.prog = .call (.readdir d) k →
+      predict (s.view ps) (.readdir d) = .name n → ∀ j, j ≠ a → ¬ N j n) ∧
+    HisoReaddirNS N (stepParty s a) rest
+
 /-! ## the parties -/
 
 /-- An mdsort action-list run as a party: its value is the error flag. -/
@@ -228,6 +301,11 @@ deriving Repr, DecidableEq
 def ClientOp.call : ClientOp → Call
   | .rename d1 n1 d2 n2 => .renameat d1 n1 d2 n2
   | .unlink d n => .unlinkat d n
+
+/-- The names the operation mentions are outside `N`. -/
+def ClientOp.avoids (N : Bytes → Prop) : ClientOp → Prop
+  | .rename _ n1 _ n2 => ¬ N n1 ∧ ¬ N n2
+  | .unlink _ n => ¬ N n
 
 def clientProg : List ClientOp → Prog Bool
   | [] => .ret false
